@@ -226,6 +226,47 @@ class Repo:
         return False
 
 
+def lift_module_statements(repo, module, first_pred, last_pred, name, params):
+    """mechanical extraction of a range of module-level statements into a
+    synthetic function (shell/shell.py is a script): the statements from the
+    first one satisfying first_pred to the first later one satisfying
+    last_pred become the body; `params` are the free variables.  Nothing is
+    rewritten."""
+    mi = repo.modules[module]
+    body = mi.tree.body
+    i0 = next(i for i, n in enumerate(body) if first_pred(n))
+    i1 = next(i for i, n in enumerate(body) if i >= i0 and last_pred(n))
+    fn = ast.FunctionDef(
+        name=name,
+        args=ast.arguments(posonlyargs=[], args=[ast.arg(arg=p) for p in
+                                                 params],
+                           kwonlyargs=[], kw_defaults=[], defaults=[]),
+        body=body[i0:i1 + 1], decorator_list=[], returns=None,
+        type_comment=None, type_params=[])
+    fn.lineno = body[i0].lineno
+    fn.end_lineno = body[i1].end_lineno
+    ast.fix_missing_locations(fn)
+    q = module + '.' + name
+    fi = FuncInfo(q, fn, mi, None, None, mi.path)
+    repo.funcs[q] = fi
+    return fi
+
+
+def _is_assign_to(n, text):
+    return isinstance(n, ast.Assign) and ast.unparse(n.targets[0]) == text
+
+
+def lift_include_loop(repo):
+    q = 'yalafi.shell.shell.<include_loop>'
+    if q not in repo.funcs:
+        lift_module_statements(
+            repo, 'yalafi.shell.shell',
+            lambda n: _is_assign_to(n, 'todo'),
+            lambda n: _is_assign_to(n, 'cmdline.file'),
+            '<include_loop>', ['cmdline', 'opts'])
+    return repo.funcs[q]
+
+
 _repo = None
 
 
